@@ -355,13 +355,7 @@ def run(ck):
     ck.ob('PROV-modes', mod.loc(rs), ok, 'MakeBonds.run_system rebuilds the molecules from the residue partition for every non-empty system, in every combination of modes',
           key='PROV-modes|always-partition')
     shared.partition_graph_rule(ck)
-    gu = idx.mod('vermouth/graph_utils.py')
-    crf = gu.func('collect_residues')
-    ck.analysed(gu, crf)
-    lp = [n for n in crf.body if isinstance(n, ast.For)]
-    ok = len(lp) == 1 and u(lp[0].iter) == 'graph' and 'key = get_attrs(graph.nodes[node_idx], attrs)' in u(lp[0]) and 'residues[key].add(node_idx)' in u(lp[0]) \
-        and not any(isinstance(n, (ast.If, ast.Continue)) for n in ast.walk(lp[0]))
-    ck.ob('PROV-partition', gu.loc(crf), ok, 'collect_residues puts every node into the group of its own key, unconditionally (a partition of all atoms)', key='PROV-partition|collect_residues')
+    # collect_residues (every atom in the group of its own key) is decided by its helper contract (rules/helpers.py: interpreted on sample graphs)
     cli_modes(ck)
     shared.truthy_zero(ck, [MB, 'vermouth/graph_utils.py'])
     ck.assume('KD-tree search completeness and near-threshold floating point are not decided; radii oracle = Bondi 1964 (embedded table)')
